@@ -450,16 +450,24 @@ def toContractId : GoStr → CidRes := toContractIdWith b58Decode
 /-! ## Spec: the property evaluated on an observed result (used by the driver on the implementation's output,
 and proved of the model in `Whv/Props/C11.lean`) -/
 
+/-- What the node reports: lower-case hex without anything else. -/
+def isLowerHex (s : GoStr) : Bool := s.all fun c => (hexVal c).isSome && !(decide (65 ≤ c.toNat) && decide (c.toNat ≤ 70))
+
+/-- What the node reports: a canonical decimal numeral (digits only, no leading zero except for "0"). -/
+def isCanonicalNumeral (s : GoStr) : Bool :=
+  !s.isEmpty && s.all isDigit && (s.length == 1 || s.head? != some 48)
+
 /-- The value a node-reported field denotes, read independently of the converter: a `ByteVec` field denotes the bytes
-its (even-length, all-hex) value spells; a `U256` field denotes the natural number its digit string spells. -/
+its (even-length, lower-case hex) value spells; a `U256` field denotes the natural number its canonical decimal
+numeral spells.  A fit event MUST be accepted with exactly these values. -/
 def denotesBytes (f : Val) : Option Bytes :=
   match f.byteVec with
-  | some t => if t.typ = tagByteVec then (match decodeHex t.value with | (r, none) => some r | _ => none) else none
+  | some t => if t.typ = tagByteVec ∧ isLowerHex t.value = true then (match decodeHex t.value with | (r, none) => some r | _ => none) else none
   | none => none
 
 def denotesNat (f : Val) : Option Nat :=
   match f.u256 with
-  | some t => if t.typ = tagU256 then parseNat t.value else none
+  | some t => if t.typ = tagU256 ∧ isCanonicalNumeral t.value = true then parseNat t.value else none
   | none => none
 
 /-- The event a six-field list denotes, if every field is well-typed and every value fits the VAA format. -/
@@ -474,8 +482,13 @@ def fitEvent (fields : List Val) (txId : GoStr) : Option Msg :=
     | _, _, _, _, _, _ => none
   | _ => none
 
-/-- The grey zone: numerals `+ddd` and `-0…0` denote an in-range value too; accepting them (with exactly that value)
-or rejecting them are both faithful.  `lenient` reads those as well. -/
+/-- The grey zone: upper-case hex, leading zeros, `+ddd` and `-0…0` denote a value too, although the node never
+reports them; accepting them (with exactly that value) or rejecting them are both faithful.  `Lenient` reads those. -/
+def denotesBytesLenient (f : Val) : Option Bytes :=
+  match f.byteVec with
+  | some t => if t.typ = tagByteVec then (match decodeHex t.value with | (r, none) => some r | _ => none) else none
+  | none => none
+
 def denotesNatLenient (f : Val) : Option Nat :=
   match f.u256 with
   | some t => if t.typ = tagU256 then (match parseInt t.value with | some v => if 0 ≤ v then some v.toNat else none | none => none) else none
@@ -484,7 +497,7 @@ def denotesNatLenient (f : Val) : Option Nat :=
 def fitEventLenient (fields : List Val) (txId : GoStr) : Option Msg :=
   match fields with
   | [f0, f1, f2, f3, f4, f5] =>
-    match denotesBytes f0, denotesNatLenient f1, denotesNatLenient f2, denotesBytes f3, denotesBytes f4, denotesNatLenient f5 with
+    match denotesBytesLenient f0, denotesNatLenient f1, denotesNatLenient f2, denotesBytesLenient f3, denotesBytesLenient f4, denotesNatLenient f5 with
     | some s, some t, some q, some n, some p, some c =>
       if s.length = 32 ∧ t < 2 ^ 16 ∧ q < 2 ^ 64 ∧ n.length = 4 ∧ c < 2 ^ 8 then
         some { txId := txId, sender := s, target := t, nonce := unbe n, payload := p, sequence := q, cl := c }
@@ -492,16 +505,20 @@ def fitEventLenient (fields : List Val) (txId : GoStr) : Option Msg :=
     | _, _, _, _, _, _ => none
   | _ => none
 
+/-- The values the statement speaks of (everything but the transaction id, which is not an event field). -/
+def Msg.sameValues (a b : Msg) : Bool :=
+  a.sender == b.sender && a.target == b.target && a.nonce == b.nonce && a.payload == b.payload && a.sequence == b.sequence && a.cl == b.cl
+
 /-- Spec verdict on an observed `ToWormholeMessage` result (`none` = the call returned an error):
 `none` = fine, `some clause` = which part of the statement is violated. -/
 def specMsg (fields : List Val) (txId : GoStr) (observed : Option Msg) : Option String :=
   match fitEvent fields txId, observed with
   | some _, none => some "fit-rejected"
-  | some m, some o => if o = m then none else some "value-altered"
+  | some m, some o => if o.sameValues m then none else some "value-altered"
   | none, none => none
   | none, some o =>
     match fitEventLenient fields txId with
-    | some m => if o = m then none else some "value-altered"
+    | some m => if o.sameValues m then none else some "value-altered"
     | none => some "unfit-accepted"
 
 /-- Spec verdict on an observed publication for message `w` and header timestamp `ts` (ms). -/
